@@ -145,3 +145,8 @@ pub use websocket_server::{
 // `SharedWebSocketServer::adopt_upgraded` and in `docs/websocket.md`.
 #[cfg(all(feature = "websocket", not(target_arch = "wasm32")))]
 pub use tokio_tungstenite;
+
+#[cfg(kani)]
+pub(crate) mod verif_common {
+    include!(concat!(env!("REPE_VERIF_KANI"), "/common.rs"));
+}
